@@ -11,6 +11,7 @@ import Frp.Engines.Client
 import Frp.Engines.Codec
 import Frp.Engines.Visitor
 import Frp.Engines.Wire
+import Frp.Engines.Group
 /-! Registry of driver engines (one line per engine). -/
 namespace Frp.Engines
 open Frp.Proto
@@ -29,5 +30,6 @@ def all : List (String × Engine) :=
   , ("codec", codec)
   , ("visitor", visitor)
   , ("wire", wire)
+  , ("group", group)
   ]
 end Frp.Engines
